@@ -15,9 +15,9 @@ package fiber
 //@ macro listedAddr(e) = !strContains(e, "/") && parseIPok(e)
 //@ macro listedCIDR(e) = strContains(e, "/") && cidrOK(e)
 // After the first n entries were handed to handleTrustedProxy:
-//   ips     holds exactly the parseable bare addresses among them (keyed by the configured text),
+//   ips     holds exactly the parseable bare addresses among them (keyed by their canonical text, canonIP),
 //   ranges  holds a network for every parseable CIDR entry among them and nothing else.
-//@ macro ipsExact(t, n) = forallS(k, indom(t.ips, k) <==> (listedAddr(k) && exists(i, 0, n, t.Proxies[i] == k)))
+//@ macro ipsExact(t, n) = forallS(k, indom(t.ips, k) <==> exists(i, 0, n, listedAddr(t.Proxies[i]) && canonIP(t.Proxies[i]) == k))
 //@ macro rangesOnlyListed(t, n) = forall(k, 0, len(t.ranges), exists(i, 0, n, listedCIDR(t.Proxies[i]) && t.ranges[k] == cidrNet(t.Proxies[i])))
 //@ macro rangesAllListed(t, n) = forall(i, 0, n, listedCIDR(t.Proxies[i]) ==> exists(k, 0, len(t.ranges), t.ranges[k] == cidrNet(t.Proxies[i])))
 
